@@ -163,6 +163,7 @@ def fittedaffine(recv, fn):
 # ---- C08: the dynamic programming table equals the optimum defined by the recurrence ----
 # optimum spec functions: one per kernel (receiver and letter type); cell() is a marker that lets the definitional
 # axiom fire only for the cell a proof obligation is about (proving(cell(i, j)) is dropped where a clause is assumed).
+TB = {'nw': (8, 9)}
 def opt_name(kind, ql):
     return {'nw': 'nwOpt', 'sw': 'swOpt', 'fitted': 'fitOpt'}[kind] + ('Q' if ql else '')
 def opt_specs():
@@ -171,7 +172,19 @@ def opt_specs():
            "// defines it (global: gaps everywhere cost the matrix' gap column/row; local: floored at 0; fitted: a free reference",
            "// prefix). cell(i, j) is a marker, true everywhere: the recurrence is unfolded only for marked cells.",
            "//@ spec cell(i int, j int) bool",
-           "//@ axiom forall i int, j int {cell(i, j)} :: cell(i, j)"]
+           "//@ axiom forall i int, j int {cell(i, j)} :: cell(i, j)",
+           "// The traceback addresses the table through rowbase(i, c) == i*c: the definition is unfolded only for marked rows",
+           "// (defmark), neighbouring rows are related by the linear consequence rowbase(i+1, c) == rowbase(i, c) + c (instantiated",
+           "// only for two row terms that already exist), and the invariant about the whole table fires only for wanted cells.",
+           "//@ spec want(i int, j int) bool",
+           "//@ axiom forall i int, j int {want(i, j)} :: want(i, j)",
+           "//@ spec succ(k int, k2 int) bool",
+           "//@ axiom forall k int, k2 int {succ(k, k2)} :: succ(k, k2)",
+           "//@ spec defmark(i int) bool",
+           "//@ axiom forall i int {defmark(i)} :: defmark(i)",
+           "//@ spec rowbase(i int, c int) int",
+           "//@ axiom forall i int, c int {rowbase(i, c), defmark(i)} :: rowbase(i, c) == i * c",
+           "//@ axiom forall i int, i3 int, c int {rowbase(i, c), rowbase(i3, c)} :: i3 == i + 1 ==> rowbase(i3, c) == rowbase(i, c) + c"]
     for kind, recv in (('nw', 'NW'), ('sw', 'SW'), ('fitted', 'Fitted')):
         for ql in (False, True):
             f = opt_name(kind, ql)
@@ -201,7 +214,9 @@ def dp_lines(kind, ql):
     col0 = lambda lim: Q('i2 int', O('i2', '0'), f'0 <= i2 && i2 < {lim}', 'i2', '0', 'i2*c')
     done = lambda lim: Q('i2 int, j2 int', O('i2', 'j2'), f'0 <= i2 && i2 < {lim} && 0 <= j2 && j2 < c', 'i2', 'j2', 'i2*c+j2')
     prev = Q('j2 int', O('i-1', 'j2'), '0 <= j2 && j2 < c', 'i-1', 'j2', '(i-1)*c+j2')
-    cur = Q('j2 int', O('i', 'j2'), '0 <= j2 && j2 < j', 'i', 'j2', 'i*c+j2')
+    # the current row: all but the newest cell (only framing to prove), and the newest cell on its own (the recurrence step)
+    cur = Q('j2 int', O('i', 'j2'), '0 <= j2 && j2 < j - 1', 'i', 'j2', 'i*c+j2')
+    new = f"proving(cell(i, j-1)) && table[i*c+j-1] == {O('i', 'j-1')}"
     out = []
     A = lambda n, lab, e: out.append(f"//@   loop {n} invariant [{lab}] {e}")
     if kind == 'nw':
@@ -212,6 +227,10 @@ def dp_lines(kind, ql):
         la_loops, r0, c0, outer, inner, after = (2, 3), None, None, 2, 3, (4,)
     A(1, 'la', LA('idx'))
     out.append("//@   loop 1 writes fresh")
+    # every loop from the table fill on restates what it needs: its obligations are proved without the quantified facts
+    # collected before its head (smaller, more stable queries)
+    for n in sorted(set([x for x in (r0, c0, outer, inner) if x])):
+        out.append(f"//@   loop {n} isolate")
     for n in la_loops:
         A(n, 'la', LA('let'))
     if r0:
@@ -228,16 +247,63 @@ def dp_lines(kind, ql):
         A(n, 'dp-done', done('i'))
         A(n, 'dp-prev', prev)
     A(inner, 'dp-cur', cur)
+    A(inner, 'dp-new', new)
     for n in after:
-        A(n, 'dp', done('r'))
+        if kind in TB and n == TB[kind][0]:
+            A(n, 'dp', f"forall i2 int, j2 int {{want(i2, j2)}} :: 0 <= i2 && i2 < r && 0 <= j2 && j2 < c ==> proving(want(i2, j2)) && proving(defmark(i2)) && proving(cell(i2, j2)) && table[rowbase(i2, c)+j2] == {O('i2', 'j2')}")
+            A(n, 'base', "proving(defmark(i)) && rowbase(i, c) == i*c")
+            A(n, 'wants', "want(i, j) && want(i-1, j-1) && want(i-1, j) && want(i, j-1)")
+        else:
+            A(n, 'dp', done('r'))
     return "\n".join(out) + "\n"
+
+# ---- C08/C09: the traceback reports, for every pair, the difference of the optimum at its two corners, and consecutive
+# pairs abut; with the spans this makes the total score telescope to the optimum (lemma verifLemmaTotal*) ----
+def fp(e, f):
+    return f"{e}.(*featPair).{f}"
+def tb_lines(kind, ql, trace, rev):
+    f = opt_name(kind, ql)
+    O = lambda i, j: f"{f}(a, alpha, rSeq, qSeq, {i}, {j})"
+    sc = lambda e: f"{fp(e,'score')} == {O(fp(e,'a.end'), fp(e,'b.end'))} - {O(fp(e,'a.start'), fp(e,'b.start'))}"
+    out = []
+    A = lambda n, lab, e: out.append(f"//@   loop {n} invariant [{lab}] {e}")
+    out.append(f"//@   loop {trace} isolate")
+    out.append(f"//@   loop {rev} isolate")
+    A(trace, 'seg', f"score == {O('maxI','maxJ')} - {O('i','j')}")
+    # the reported pairs are objects that exist already: allocating the next one does not touch them
+    A(trace, 'alloc', "forall k int {aln[k]} :: 0 <= k && k < len(aln) ==> allocated(aln[k].(*featPair)) && aln[k].(*featPair) != nil")
+    A(rev, 'alloc', "forall k int {aln[k]} :: 0 <= k && k < len(aln) ==> aln[k].(*featPair) != nil")
+    A(trace, 'scores', f"forall k int {{aln[k]}} :: 0 <= k && k < len(aln) ==> {sc('aln[k]')}")
+    A(trace, 'chain', f"forall k int, k2 int {{succ(k, k2)}} :: 0 <= k && k2 == k + 1 && k2 < len(aln) ==> proving(succ(k, k2)) && {fp('aln[k2]','a.end')} == {fp('aln[k]','a.start')} && {fp('aln[k2]','b.end')} == {fp('aln[k]','b.start')}")
+    A(trace, 'tail', f"forall k int {{aln[k]}} :: 0 <= k && k == len(aln) - 1 ==> {fp('aln[k]','a.start')} == maxI && {fp('aln[k]','b.start')} == maxJ")
+    A(trace, 'origin', f"proving(cell(0, 0)) && {O('0','0')} == 0")
+    A(rev, 'scores', f"forall k int {{aln[k]}} :: 0 <= k && k < len(aln) ==> {sc('aln[k]')}")
+    # the reversal: positions below i and above j are in their final order, the middle still in traceback order
+    A(rev, 'chain-done', f"forall k int, k2 int {{succ(k, k2)}} :: 0 <= k && k2 == k + 1 && k2 < len(aln) && (k2 < i || k > j) ==> proving(succ(k, k2)) && {fp('aln[k]','a.end')} == {fp('aln[k2]','a.start')} && {fp('aln[k]','b.end')} == {fp('aln[k2]','b.start')}")
+    A(rev, 'chain-todo', f"forall k int, k2 int {{succ(k, k2)}} :: i <= k && k2 == k + 1 && k2 <= j ==> proving(succ(k, k2)) && {fp('aln[k2]','a.end')} == {fp('aln[k]','a.start')} && {fp('aln[k2]','b.end')} == {fp('aln[k]','b.start')}")
+    A(rev, 'chain-joint', f"i > 0 && i <= j ==> proving(succ(i-1, i)) && proving(succ(j, j+1)) && {fp('aln[i-1]','a.end')} == {fp('aln[j]','a.start')} && {fp('aln[i-1]','b.end')} == {fp('aln[j]','b.start')} && {fp('aln[i]','a.end')} == {fp('aln[j+1]','a.start')} && {fp('aln[i]','b.end')} == {fp('aln[j+1]','b.start')}")
+    A(rev, 'chain-met', f"i > 0 && i == j + 1 ==> proving(succ(i-1, i)) && proving(succ(j, j+1)) && {fp('aln[j]','a.end')} == {fp('aln[i]','a.start')} && {fp('aln[j]','b.end')} == {fp('aln[i]','b.start')}")
+    return "\n".join(out) + "\n"
+def tb_ensures(kind, ql):
+    f = opt_name(kind, ql)
+    O = lambda i, j: f"{f}(a, alpha, rSeq, qSeq, {i}, {j})"
+    e = 'result0[k]'
+    return (f"//@   ensures [objects] result1 == nil ==> forall k int {{result0[k]}} :: 0 <= k && k < len(result0) ==> result0[k].(*featPair) != nil\n"
+            f"//@   ensures [scores] result1 == nil ==> forall k int {{result0[k]}} :: 0 <= k && k < len(result0) ==> {fp(e,'score')} == {O(fp(e,'a.end'), fp(e,'b.end'))} - {O(fp(e,'a.start'), fp(e,'b.start'))}\n"
+            f"//@   ensures [chain] result1 == nil ==> forall k int, k2 int {{succ(k, k2)}} :: 0 <= k && k2 == k + 1 && k2 < len(result0) ==> proving(succ(k, k2)) && {fp('result0[k]','a.end')} == {fp('result0[k2]','a.start')} && {fp('result0[k]','b.end')} == {fp('result0[k2]','b.start')}\n")
 def q(s):
     # quality letters: the letter of element k is rSeq[k].L
     return s.replace('rSeq[k]', 'rSeq[k].L').replace('qSeq[k]', 'qSeq[k].L').replace('rSeq[i-1]', 'rSeq[i-1].L')
 out = [opt_specs()]
 for mk, recv, kind in ((nw, 'NW', 'nw'), (sw, 'SW', 'sw'), (fitted, 'Fitted', 'fitted')):
-    out.append(mk(recv, 'alignLetters').replace('//@   property C09\n', '//@   property C09\n//@   property C08\n') + dp_lines(kind, False))
-    out.append(q(mk(recv, 'alignQLetters')).replace('//@   property C09\n', '//@   property C09\n//@   property C08\n') + dp_lines(kind, True))
+    for ql, fn in ((False, 'alignLetters'), (True, 'alignQLetters')):
+        c = mk(recv, fn)
+        if ql:
+            c = q(c)
+        c = c.replace('//@   property C09\n', '//@   property C09\n//@   property C08\n') + dp_lines(kind, ql)
+        if kind in TB:
+            c = c.replace('//@   loop 1 invariant', tb_ensures(kind, ql) + '//@   loop 1 invariant', 1) + tb_lines(kind, ql, *TB[kind])
+        out.append(c)
 out.append(nwaffine('NWAffine', 'alignLetters'))
 out.append(q(nwaffine('NWAffine', 'alignQLetters')))
 out.append(swaffine('SWAffine', 'alignLetters'))
